@@ -13,6 +13,7 @@ package main
 import (
 	"fmt"
 	"os"
+	"runtime/pprof"
 	"time"
 
 	"verif/internal/harness"
@@ -31,6 +32,11 @@ import (
 // assignment.
 func run(b *harness.B) {
 	c := newCtx(b)
+	if pf := os.Getenv("C14_CPUPROFILE"); pf != "" {
+		f, _ := os.Create(pf)
+		pprof.StartCPUProfile(f)
+		defer pprof.StopCPUProfile()
+	}
 	t0 := time.Now() // diagnostics only (stderr); never read by an oracle
 	phase := func(name string) {
 		fmt.Fprintf(os.Stderr, "phase %-10s %6.1fs\n", name, time.Since(t0).Seconds())
